@@ -113,6 +113,14 @@ func evalExtract(c Case, res *ev.Result, lc *local) {
 		}
 		nf := len(fields)
 		offsetOf = func(i int) int { return nf - 1 - i }
+	case "rotated": // neither ascending nor descending: the list rotated by one third (22, 23, ..., 20, 21)
+		nf := len(fields)
+		rot := nf / 3
+		if rot == 0 {
+			rot = 1
+		}
+		fields = append(append(modbus.Fields{}, fields[rot:]...), fields[:rot]...)
+		offsetOf = func(i int) int { return (i + rot) % nf }
 	case "beyond-first": // a field past the payload listed first, lenient extraction: the others must still be extracted
 		beyond := modbus.Field{Name: "beyond", ServerAddress: "s", UnitID: 1, Address: uint16(c.Start + n), Type: modbus.FieldTypeCoil}
 		if c.Start+n > 65535 {
@@ -273,7 +281,9 @@ func run(tier string, shard, nsh int, res *ev.Result) {
 	for _, L := range lens {
 		L := L
 		jobs = append(jobs, func(lc *local) {
-			starts := []int{0, 1, 7, 8, 9, 100, 65536 - 8*L, 65535 - 8*L, 65536 - 8*L + 3}
+			// (9 994 / 10 001 / 19 996 / 29 998 / 40 001: windows lying across and next to the "reference number" ranges of
+			// the old Modicon notation - an address is an address, whatever it looks like)
+			starts := []int{0, 1, 7, 8, 9, 100, 65536 - 8*L, 65535 - 8*L, 65536 - 8*L + 3, 9994, 10001, 19996, 29998, 40001}
 			for si, s := range starts {
 				if s < 0 {
 					continue
@@ -285,6 +295,12 @@ func run(tier string, shard, nsh int, res *ev.Result) {
 							continue
 						}
 						api := apis[(k+si)%3]
+						// queries far away from the window (also on the other side of the 10001.. / 20000 marks)
+						for _, a := range []int{s + 10000, s + 10003, s - 9996, 5, 10001, 10005, 19999, 20000, s + 30000} {
+							if a >= 0 && a <= 65535 && (a < s-2 || a > s+8*L+2) && (k == 0 || k == 8*L-1) {
+								evalLookup(Case{Part: "lookup", API: api, Len: L, Start: s, Pattern: pat, K: k, Addr: a}, res, lc)
+							}
+						}
 						if full {
 							for a := s - 2; a <= s+8*L+2; a++ {
 								if a < 0 || a > 65535 {
@@ -324,6 +340,8 @@ func run(tier string, shard, nsh int, res *ev.Result) {
 								if L <= 2 || k == 0 {
 									evalExtract(Case{Part: "extract", API: "BuilderRequest.ExtractFields", Len: L, Start: s, Pattern: pat, K: k, RTU: rtu, Order: "reversed"}, res, lc)
 									evalExtract(Case{Part: "extract", API: "BuilderRequest.ExtractFields", Len: L, Start: s, Pattern: "ones", K: k, RTU: rtu, Order: "last-only"}, res, lc)
+									evalExtract(Case{Part: "extract", API: "BuilderRequest.ExtractFields", Len: L, Start: s, Pattern: pat, K: k, RTU: rtu, Order: "last-only"}, res, lc)
+									evalExtract(Case{Part: "extract", API: "BuilderRequest.ExtractFields", Len: L, Start: s, Pattern: pat, K: k, RTU: rtu, Order: "rotated"}, res, lc)
 									evalExtract(Case{Part: "extract", API: "BuilderRequest.ExtractFields", Len: L, Start: s, Pattern: pat, K: k, RTU: rtu, Order: "beyond-first"}, res, lc)
 								}
 							}
